@@ -130,10 +130,10 @@ def fresh(prefix="t"):
 
 class ArrParam:
     """opaque named input array (kernel parameter, window, data record)."""
-    __slots__ = ("name", "ndim", "kind", "known")
+    __slots__ = ("name", "ndim", "kind", "known", "bin", "built")
 
     def __init__(s, name, ndim=1, kind="real", shape=None):
-        s.name = name; s.ndim = ndim; s.kind = kind; s.known = shape
+        s.name = name; s.ndim = ndim; s.kind = kind; s.known = shape; s.bin = None; s.built = None
 
     def __repr__(s): return f"@{s.name}"
 
@@ -161,7 +161,6 @@ class LocalArr:
 
 
 class ListVal:
-    __slots__ = ("items", "per_iter")
 
     def __init__(s, items=None):
         s.items = list(items or []); s.per_iter = []
@@ -254,7 +253,12 @@ def lift2(op, a, b):
     if is_opaque(b): return b
     if isinstance(a, (Arr, ArrParam, LocalArr)) or isinstance(b, (Arr, ArrParam, LocalArr)):
         return arr_op2(op, a, b)
-    return pv_apply(lambda x, y: (x if is_opaque(x) else y if is_opaque(y) else scal_op(op, x, y)), a, b)
+    def leaf(x, y):
+        if is_opaque(x): return x
+        if is_opaque(y): return y
+        if isinstance(x, (Arr, ArrParam, LocalArr)) or isinstance(y, (Arr, ArrParam, LocalArr)): return arr_op2(op, x, y)
+        return scal_op(op, x, y)
+    return pv_apply(leaf, a, b)
 
 
 def lift1(f, a):
@@ -265,6 +269,7 @@ def lift1(f, a):
 
     def g(x):
         if is_opaque(x): return x
+        if isinstance(x, (Arr, ArrParam)): return lift1(f, x)
         xx = to_x(x)
         if xx is None: return Opaque("non-numeric operand")
         try: return f(xx)
@@ -313,6 +318,11 @@ def subst_val(v, mapping):
         return Arr([(a, c.subst(mapping) if isinstance(c, X) else c) for a, c in v.axes], subst_val(v.body, mapping))
     if isinstance(v, tuple): return tuple(subst_val(e, mapping) for e in v)
     if isinstance(v, list): return [subst_val(e, mapping) for e in v]
+    if isinstance(v, ListVal) and not v.per_iter:
+        return ListVal([subst_val(e, mapping) for e in v.items])
+    if isinstance(v, ArrParam) and v.bin is not None and isinstance(v.bin, X):
+        n = ArrParam(v.name, v.ndim, v.kind, v.known); n.bin = v.bin.subst(mapping); n.built = v.built
+        return n
     return v
 
 
